@@ -128,6 +128,22 @@ def has_external_choices_obligations(ctx, rule, rid):
                            ("containers everywhere, no external select", {"type": "survey", "choices": {"l": [{"name": "x"}]}, "children": [{"type": "group", "bind": {"relevant": "1"}, "children": [{"type": "text", "name": "b", "bind": {"x": "y"}}]}]}, False)):
         it.reset([])
         rule.check(it.call_function(he, [js], {}, None, he.node) is want, f"has_external_choices[{desc}]", f"-> {want} (uses the type the row loop assigns)", he.loc())
+    # every container type the row loop can open (the values of the control-type alias table) may hold the external select
+    control = ctx.consts.get("pyxform.aliases", "control", rid)
+    for ct in sorted(set(control.values())):
+        for depth in (1, 2):
+            inner = {"type": ct, "name": "c", "children": [{"type": "text", "name": "t"}, {"type": ext_type, "name": "q", "itemset": "l"}]}
+            if ct == "loop":
+                inner["columns"] = [{"name": "a", "label": "A"}]
+            if depth == 2:
+                inner = {"type": "group", "name": "outer", "children": [inner]}
+            js = {"type": "survey", "name": "data", "children": [inner]}
+            it.reset([])
+            try:
+                got = it.call_function(he, [js], {}, None, he.node)
+            except Raised as e:
+                got = f"raises {e.exc_name}"
+            rule.check(got is True, f"has_external_choices[external select inside a `{ct}`, depth {depth}]", "-> True", he.loc(), why_fail=repr(got))
 
 
 def or_other_obligations(ctx, rule, rid, w2j, loop):
